@@ -37,6 +37,9 @@ pub enum CK {
     B,
     /// plain call of about 5 KB: the receive buffer has to grow some twenty times for it
     H,
+    /// plain call with, in front, an unknown member whose 70-character name is spelled with a JSON
+    /// escape: an ordinary call to the service
+    X,
 }
 
 #[derive(Clone, Debug)]
@@ -56,8 +59,14 @@ pub fn call_spec(kind: CK, id: u32) -> CallSpec {
         CK::Ow => json!({"method": "t.Watch", "parameters": {"k": id}, "oneway": true}),
         CK::B => json!({"method": "t.Plain", "parameters": {"n": id, "tag": big_tag(id)}}),
         CK::H => json!({"method": "t.Plain", "parameters": {"n": id, "tag": huge_tag(id)}}),
+        CK::X => json!({"method": "t.Plain", "parameters": {"n": id, "tag": format!("t\u{e4}g-{id}")}}),
     };
     let mut frame = serde_json::to_vec(&v).unwrap();
+    if kind == CK::X {
+        let mut f = b"{\"\\u0078-unknown-member-with-a-rather-long-name-that-goes-on-and-on-0123456789\":[1],".to_vec();
+        f.extend_from_slice(&frame[1..]);
+        frame = f;
+    }
     frame.push(0);
     CallSpec { kind, id, frame }
 }
@@ -80,7 +89,7 @@ fn norm(mut v: Value) -> Value {
 
 fn expected_reply(c: &CallSpec) -> Option<Value> {
     match c.kind {
-        CK::P => Some(json!({"parameters": {"n": c.id, "tag": format!("t\u{e4}g-{}", c.id)}})),
+        CK::P | CK::X => Some(json!({"parameters": {"n": c.id, "tag": format!("t\u{e4}g-{}", c.id)}})),
         CK::F => Some(json!({"error": "t.Failed", "parameters": {"n": c.id}})),
         CK::B => Some(json!({"parameters": {"n": c.id, "tag": big_tag(c.id)}})),
         CK::H => Some(json!({"parameters": {"n": c.id, "tag": huge_tag(c.id)}})),
@@ -121,11 +130,15 @@ pub enum Fault {
     LongWrongTypes(u8),
     /// a call whose string parameter holds bytes that are not UTF-8
     BadUtf8,
+    /// a call for an unknown method with, in front, an unknown member whose 70-character name is
+    /// spelled with a JSON escape
+    LongEscapedMember,
 }
 /// Undecodable frames that differ from the short ASCII ones in size (beyond two buffer steps) and
 /// content (valid UTF-8 made of three-byte characters, with one alignment per residue so that any
 /// byte offset falls inside a character for some of them; bytes that are not UTF-8 at all).
-pub const CONTENT_FAULTS: [Fault; 10] = [
+pub const CONTENT_FAULTS: [Fault; 11] = [
+    Fault::LongEscapedMember,
     Fault::LongGarbage(0),
     Fault::LongGarbage(1),
     Fault::LongGarbage(2),
@@ -276,7 +289,7 @@ impl<'a> Sim<'a> {
             let Some(c) = self.conns[i].queue.pop_front() else { break };
             let conn = &mut self.conns[i];
             match c.kind {
-                CK::P | CK::O | CK::B | CK::H => conn.handled.push((c.id, 'P', matches!(c.kind, CK::O))),
+                CK::P | CK::O | CK::B | CK::H | CK::X => conn.handled.push((c.id, 'P', matches!(c.kind, CK::O))),
                 CK::F | CK::Of => conn.handled.push((c.id, 'F', matches!(c.kind, CK::Of))),
                 CK::W(..) => conn.handled.push((c.id, 'W', false)),
                 CK::Ow => conn.handled.push((c.id, 'W', true)),
@@ -472,6 +485,11 @@ impl<'a> Sim<'a> {
                 strong(c);
                 c.closed = true;
                 c.wire.arrive(format!("{{\"method\":\"t.Plain\",\"parameters\":{{\"n\":\"{}\",\"tag\":5}}}}\0", euros(a)).as_bytes());
+            }
+            Fault::LongEscapedMember => {
+                strong(c);
+                c.closed = true;
+                c.wire.arrive(b"{\"\\u0078-unknown-member-with-a-rather-long-name-that-goes-on-and-on-0123456789\":1,\"method\":\"t.Nope\",\"parameters\":{}}\0");
             }
             Fault::BadUtf8 => {
                 strong(c);
@@ -712,6 +730,7 @@ pub fn ck_name(k: &CK) -> String {
         CK::Ow => "Ow".into(),
         CK::B => "B".into(),
         CK::H => "H".into(),
+        CK::X => "X".into(),
     }
 }
 pub fn ck_parse(s: &str) -> CK {
@@ -723,6 +742,7 @@ pub fn ck_parse(s: &str) -> CK {
         "Ow" => CK::Ow,
         "B" => CK::B,
         "H" => CK::H,
+        "X" => CK::X,
         w => CK::W(w[1..2].parse().unwrap(), w.ends_with('e')),
     }
 }
@@ -955,7 +975,7 @@ pub fn run_c08(tier: Tier) -> i32 {
     ));
     // calls (and replies) of 5 KB: the receive buffer grows some twenty times for one call, other
     // clients' calls arrive meanwhile
-    let sizes: Vec<Vec<CK>> = vec![vec![CK::P], vec![CK::H], vec![CK::H, CK::P], vec![CK::B, CK::H]];
+    let sizes: Vec<Vec<CK>> = vec![vec![CK::P], vec![CK::H], vec![CK::H, CK::P], vec![CK::B, CK::H], vec![CK::X, CK::P]];
     plan.push((
         "2conns/4calls/6events/5KB-calls+dev",
         ScenCfg { prop: "C08".into(), max_conns: 2, max_calls: 4, max_events: tier.pick(6, 7), bursts: sizes, faults: vec![], max_faults: 0, closes: false, cuts: true, short_reads: true, delay_polls: true, write_fault_on_stream: false },
